@@ -293,6 +293,11 @@ def run_batch(prop_id, tier, seed, runs=None, workers=None, max_wall=None, selft
     finally:
         pool.shutdown(wait=False, cancel_futures=True)
 
+    # coverage guard: a check whose well-posed scenarios are rejected at construction is not looking
+    rej = sum(1 for r in results if r["discard"] and str(r["discard"]).startswith("rejected:"))
+    if results and rej > max(3, 0.03 * len(results)):
+        reasons = collections.Counter(str(r["discard"])[:70] for r in results if r["discard"] and str(r["discard"]).startswith("rejected:"))
+        harness_errors.append(f"coverage gap: {rej} of {len(results)} well-posed scenarios were rejected at construction: {reasons.most_common(2)}")
     wall = time.time() - t_start
     ev = write_evidence(mod, prop_id, tier, seed, results, reports, known_hits, st, wall, harness_errors, workers)
     for fid, n in known_hits.items():
